@@ -254,10 +254,75 @@ def guards(ctx, o, eff, name):
         return
     if name == 'children':
         writes = _without_symmetric_unlinks(f, writes)
+        delegated = _attaches_only_through_parent_setter(ctx, f, eff)
+        for label, R, needs_elem in REQ[name]:
+            cap = _Capture()
+            T.require(ctx, cap, f, label, R, writes, eff, needs_elem)
+            if cap.sites or not delegated:
+                cap.replay(o)
+            elif delegated == 'partly':
+                o.undecided(f, f.node, label, f"[{label}] is left to the parent setter of each child (`child.parent = self`), but the children "
+                                              f"setter also writes parent/child-list state directly (e.g. a roll-back): not covered by the argument")
+            else:
+                # not (or too late) rejected by the children setter itself, but every new child is attached by `child.parent = self`:
+                # the parent setter rejects the same case for that child (C01.guards_parent), and what was written before is a symmetric
+                # state.  The forest stays well-formed; that the rejected call changed something is C15.children_prevalidated.
+                o.site(f, f.node, f"{label}: enforced per child by the parent setter every new child goes through")
+        return
     for label, R, needs_elem in REQ[name]:
         T.require(ctx, o, f, label, R, writes, eff, needs_elem)
     if name in ('predecessors', 'successors'):
         _constructor_path(ctx, o, eff, name)
+
+
+class _Capture:
+    """stands in for an Obligation while a requirement is evaluated; the result is replayed or reinterpreted"""
+
+    def __init__(self):
+        self.sites, self.refuted, self.unknown = [], [], []
+
+    def site(self, *a, **k):
+        self.sites.append((a, k))
+
+    def refute(self, *a, **k):
+        self.refuted.append((a, k))
+
+    def undecided(self, *a, **k):
+        self.unknown.append((a, k))
+
+    def replay(self, o):
+        for a, k in self.sites:
+            o.site(*a, **k)
+        for a, k in self.refuted:
+            o.refute(*a, **k)
+        for a, k in self.unknown:
+            o.undecided(*a, **k)
+
+
+def _attaches_only_through_parent_setter(ctx, f, eff):
+    """the children setter gives a task to a parent only by `x.parent = self` (at least once) - no direct store of a non-None
+    __parent, no direct insertion into a child list"""
+    s = f.self_name
+    via = [st for st, tgt, val in facts.attr_stores(f, 'parent') if isinstance(val, ast.Name) and val.id == s]
+    if not via:
+        return False
+    return 'partly' if not _no_direct_attach(f, eff) else True
+
+
+def _no_direct_attach(f, eff) -> bool:
+    for w in eff.direct_writes(f):
+        if w.field == '_Task__parent' and w.kind == 'store':
+            v = None
+            for n in walk_no_nested(f.node):
+                if isinstance(n, ast.Assign) and any(x is w.node for t in n.targets for x in ast.walk(t)) or n is w.node and isinstance(n, ast.Assign):
+                    v = n.value
+            if not (isinstance(v, ast.Constant) and v.value is None):
+                return False
+        if w.field == '_Task__children' and w.kind != 'store' and any(k in w.kind for k in ('append', 'insert', 'extend', '__setitem__')):
+            return False
+        if w.field == '_Task__children' and w.kind == 'store':
+            return False
+    return True
 
 
 def _without_symmetric_unlinks(f, writes):
@@ -859,6 +924,12 @@ def _walk_form(ctx, f, raw, pub):
                 if isinstance(st, ast.Expr) and (match(f"$s.add(id({v}))", st.value) or match(f"$s.add({v})", st.value)):
                     return True
                 return False
+            for st in body:
+                if (isinstance(st, ast.If) and (match(f"{v}.id in $s", st.test) or match(f"{v}.id not in $s", st.test))) or \
+                        (isinstance(st, ast.Expr) and match(f"$s.add({v}.id)", st.value)):
+                    return ('bad', g, st, st, f"{what} remembers visited tasks by their id (`{src(st)[:50].splitlines()[0]}`): a different task that "
+                                              f"shares its id with a visited one (ids are unique per WBS only) is skipped with everything behind "
+                                              f"it, and the cycle guard misses the paths through it")
             body = [st for st in body if not prelude(st)]
             # list building recursion: acc.append(v); acc.extend(rec(v))
             ap = [i for i, st in enumerate(body) if isinstance(st, ast.Expr) and match(f"$acc.append({v})", st.value)]
